@@ -29,7 +29,7 @@ pub fn plan(p: &EpParams) -> Plan {
     Plan {
         episodes: n,
         exhaustive: false,
-        rule: "life-cycle walks: 6-14 steps over {create push subscription to endpoint A|B, create pull-only subscription, create with a topic of a foreign project (rejected), delete subscription, delete topic, re-create topic} on 3 subscription names x 2 topics in 2 projects with name reuse; after every step one tagged message is published to every live topic and 3 push intervals pass. Both endpoints answer 200. Oracle: reference model of (name -> topic incarnation, endpoint); POSTs compared with the model per message, pull-only subscriptions read back, push registry compared with the model at the end. Non-trivial: a name was reused after a deletion or a rejected create, and >=1 POST was observed. Distinct: the step sequence.".into(),
+        rule: "life-cycle walks: 6-14 steps over {create push subscription to endpoint A|B, create pull-only subscription, create with a topic of a foreign project (rejected), delete subscription, a DeleteSubscription abandoned by its client followed at once by a push create of the same name, delete topic, re-create topic} on 3 subscription names x 2 topics in 2 projects with name reuse; after every step one tagged message is published to every live topic and 3 push intervals pass. Both endpoints answer 200. Oracle: reference model of (name -> topic incarnation, endpoint); POSTs compared with the model per message, pull-only subscriptions read back, push registry compared with the model at the end. Non-trivial: a name was reused after a deletion or a rejected create, and >=1 POST was observed. Distinct: the step sequence.".into(),
     }
 }
 
@@ -82,7 +82,47 @@ async fn episode(p: &EpParams) -> EpReport {
         let name = rng.pick(&names).clone();
         let own_topic = if name.starts_with("projects/p1/") { topics[0].clone() } else { topics[1].clone() };
         let foreign_topic = if name.starts_with("projects/p1/") { topics[1].clone() } else { topics[0].clone() };
-        match rng.below(10) {
+        match rng.below(11) {
+            10 => {
+                // a DeleteSubscription whose client goes away after a few scheduler turns, with the topic
+                // kept busy, and the same name created again at once (push, endpoint A or B): whatever
+                // the old incarnation's deletion still does must not touch the new one
+                if !subs.contains_key(&name) {
+                    continue;
+                }
+                let e = rng.below(2) as usize;
+                steps.push(format!("abandoned-del+push{}:{}", e, short(&name)));
+                for i in 0..rng.range(0, 24) {
+                    let (c, t2) = (Cx::new(&w, 60 + i as u32), own_topic.clone());
+                    tokio::spawn(async move {
+                        let _ = c.list_topic_subs(&t2, 0, "").await;
+                    });
+                }
+                let (c2, n2) = (Cx::new(&w, 2), name.clone());
+                let del = tokio::spawn(async move {
+                    let _ = c2.delete_sub(&n2).await;
+                });
+                for _ in 0..rng.below(8) {
+                    tokio::task::yield_now().await;
+                }
+                del.abort();
+                let _ = del.await;
+                let created = cx.create_sub_full(&name, &own_topic, 60, Some(&eps[e].url), HashMap::new()).await.is_ok();
+                for _ in 0..3 {
+                    tokio::time::sleep(Duration::from_millis(1)).await;
+                    w.barrier().await;
+                }
+                if created {
+                    used_before.insert(name.clone());
+                    reused += 1;
+                    let inc = live_topic.get(&own_topic).copied().unwrap_or(0);
+                    subs.insert(name.clone(), MSub { topic: own_topic.clone(), topic_inc: inc, endpoint: Some(e), expect: vec![], seen_by_pull: BTreeSet::new() });
+                    rep.inc("recreated_behind_an_abandoned_delete");
+                } else if cx.get_sub(&name).await.is_err() {
+                    // the abandoned delete went through after all
+                    subs.remove(&name);
+                }
+            }
             0..=2 => {
                 let e = rng.below(2) as usize;
                 steps.push(format!("push{}:{}", e, short(&name)));
@@ -247,6 +287,15 @@ async fn episode(p: &EpParams) -> EpReport {
     model.sort();
     if reg != model {
         rep.viol("C14", "C14:registry-differs-from-model", format!("push registry {:?}, live push subscriptions {:?} (steps {:?})", reg, model, steps));
+    }
+    // seen from C16: a request abandoned by its client must leave the state of "completed" or
+    // "never received" - in particular for whoever uses the name next
+    if steps.iter().any(|x| x.starts_with("abandoned-del")) {
+        let n14 = rep.violations.iter().filter(|v| v.property == "C14").count();
+        if n14 > 0 {
+            let first = rep.violations.iter().find(|v| v.property == "C14").map(|v| v.detail.clone()).unwrap_or_default();
+            rep.viol("C16", "C16:state:abandoned-delete-then-recreate", format!("after a DeleteSubscription abandoned by its client and a create of the same name: {}", first));
+        }
     }
     rep.add("names_reused", reused);
     rep.nontrivial = reused > 0 && n_posts > 0;
